@@ -22,6 +22,7 @@ CONSTANTS
   SLASHIDS = {"i1"}
   GENBAL = 0
   FRESH = TRUE
+  WANTED = {}
   PREFUND = 0
   PREDEL = 0
   EVENTS = {"Deposit","Withdraw","Delegate","Undelegate","Associate","Dissociate","Slash","NstUpdate","ReleaseHold","EndBlock"}
